@@ -125,8 +125,13 @@ class GULP_PairTabulation(PairTabulation_AbstractBase):
 
     :param fp: File object into which data should be written."""
     
+    # Build the whole table before anything is written, so that a function which fails
+    # part-way through cannot leave a truncated table behind.
+    from io import StringIO
+    outputbuilder = StringIO()
     for pot in self.potentials:
-      self._write_pot(pot, fp)
+      self._write_pot(pot, outputbuilder)
+    fp.write(outputbuilder.getvalue())
 
   def _write_pot(self, pot, fp):
     header_template = u"{speciesA} {speciesB} {cutoff}\n"
